@@ -18,6 +18,7 @@ theorem reduce_den {m : IM σ α} {cost : σ → Nat} {s : σ} {L : List (α × 
     (h : Den m cost s L e) :
     ∃ F, ∀ fuel, F ≤ fuel → ∀ acc, (reduce m f fuel acc s).1 = some ((L.map Prod.fst).foldl f acc) ∧
       Ended m (reduce m f fuel acc s).2 := by
+  have _tie := Skeleton.Tie.itReduce
   induction h with
   | skip hs _ ih =>
     obtain ⟨F, hF⟩ := ih
@@ -46,6 +47,7 @@ theorem foldl_snoc (l : List α) (acc : List α) : l.foldl (fun (acc : List α) 
 theorem collect_den {m : IM σ α} {cost : σ → Nat} {s : σ} {L : List (α × Nat)} {e : Nat}
     (h : Den m cost s L e) :
     ∃ F, ∀ fuel, F ≤ fuel → (collect m fuel s).1 = some (L.map Prod.fst) := by
+  have _tie := Skeleton.Tie.itCollect
   obtain ⟨F, hF⟩ := reduce_den (fun (acc : List α) a => acc ++ [a]) h
   refine ⟨F, fun fuel hf => ?_⟩
   have := (hF fuel hf []).1
@@ -90,6 +92,7 @@ theorem drive_ended {m : IM σ α} {s : σ} (he : Ended m s) (fuel : Nat) (hf : 
 theorem one_den {m : IM σ α} {cost : σ → Nat} {s : σ} {L : List (α × Nat)} {e : Nat}
     (h : Den m cost s L e) :
     ∃ F, ∀ fuel, F ≤ fuel → (one m fuel s).1 = some (match L.map Prod.fst with | [a] => some a | _ => none) := by
+  have _tie := Skeleton.Tie.itOne
   obtain ⟨F1, h1⟩ := drive_den h
   cases L with
   | nil =>
